@@ -112,8 +112,14 @@ def main(argv=None):
             for r in inst.static_obligations(args.tier):
                 static_results.append(dict(r, contract=inst.name, prop=inst.prop))
         if hasattr(inst, "bounded_checks"):
-            for r in inst.bounded_checks(args.tier, seed):
-                bounded_results.append(dict(r, contract=inst.name, prop=inst.prop))
+            try:
+                for r in inst.bounded_checks(args.tier, seed):
+                    bounded_results.append(dict(r, contract=inst.name, prop=inst.prop))
+            except Exception as e:  # a crashing stand-in is a checker crash (exit 3), never a verdict
+                import traceback
+
+                print(f"CRASH bounded stand-in of {inst.name}: {type(e).__name__}: {e}\n{traceback.format_exc(limit=6)}")
+                return 3
 
     results = []
     if jobs:
